@@ -17,5 +17,6 @@ func main() {
 	w.C10Server(r)
 	w.C10Names()
 	w.C10HopServer(r)
+	w.C10CraftedCertBlocks(r)
 	w.C10Client(r)
 }
